@@ -276,8 +276,8 @@ def _shard_strings(arg):
 def run(ctx):
     outdir = os.path.join(ctx.work, "c41")
     defaults = calibrate(outdir)
-    nmods = 2 if ctx.quick else 20
-    nitems = 5 if ctx.quick else 6
+    nmods = 1 if ctx.quick else 20
+    nitems = 6
     ctx.pmap(_shard_modules, [(ctx.seed, s, nmods, nitems, 3, defaults) for s in range(16)])
     ctx.pmap(_shard_strings, [(ctx.seed, s, 400 if ctx.quick else 8000) for s in range(16)])
     ctx.extra["calibrated_defaults"] = defaults
